@@ -437,6 +437,35 @@ package trace
 //@   canary@return#3 KF-C15-shutdown-cancelled-ctx : len(procs(p)) == 0
 //@   loop#1 invariant p.isShutdown.v != 0 && p.spanProcessors.v == old(p.spanProcessors.v)
 
+// Tracer: a provider that has been shut down hands out the no-op tracer - the flag is read before anything else, and again under
+// the lock before the tracer table is consulted or written, so neither a cached nor a new recording tracer escapes after Shutdown
+//@ guarded_by TracerProvider.mu: namedTracer
+//@ func (p *TracerProvider) Tracer$1() (t trace.Tracer, ok bool)
+//@   prop C15
+//@   acquires TracerProvider.mu
+//@   overflow assumed
+//@   unchecked frame,no-panic the no-op provider is another module; the tracer table is a map of pointers
+//@   requires p != nil
+//@   ensures p.isShutdown.v != 0 ==> ok && !typeis(t, "*tracer")
+//@   assert@call mapupdate#* : p.isShutdown.v == 0
+//@   assert@return#1 : p.isShutdown.v != 0
+//@ func (p *TracerProvider) Tracer(name string, opts []trace.TracerOption) (t trace.Tracer)
+//@   prop C15
+//@   acquires p.mu
+//@   overflow assumed
+//@   unchecked frame,no-panic logging, option evaluation and the no-op provider are other modules
+//@   requires p != nil
+//@   assert@return#1 : old(p.isShutdown.v) != 0
+//@   assert@call TracerProvider.Tracer$1#1 : old(p.isShutdown.v) == 0
+
+// ForceFlush: every registered processor is flushed, in registration order, until the context is done or one fails
+//@ func (p *TracerProvider) ForceFlush(ctx context.Context) (err error)
+//@   prop C15
+//@   overflow assumed
+//@   unchecked frame,no-panic processors are third-party code
+//@   requires p != nil && ctx != nil && p.spanProcessors.v != 0 && (forall i in 0 .. len(procs(p)) : procs(p)[i] != nil)
+//@   assert@call ForceFlush#* : $arg0 == spss[$k].sp
+
 // ======================================================================== C01 batch span processor
 // The batch is only touched under batchMutex and never holds more than MaxExportBatchSize spans. Only the worker goroutine
 // (processQueue, then drainQueue - called one after the other by the goroutine NewBatchSpanProcessor starts) appends to it;
